@@ -16,15 +16,19 @@ import (
 // objStore is the harness HTTP back end: an object store by request path.
 // Its content is scripted by the harness only: uploads (write-through from
 // the front end) are read and discarded so that the model of "what the back
-// end holds" stays exact. HEAD/GET answer 200 + Content-Length, or 404.
+// end holds" stays exact. HEAD/GET answer 200 + Content-Length, or 404 -
+// unless a fault is scripted for the path (see fault.go): then HEAD, the
+// existence check of the real httpproxy, is answered with that fault.
 type objStore struct {
-	mu   sync.RWMutex
-	objs map[string]storeObj
+	mu     sync.RWMutex
+	objs   map[string]storeObj
+	faults map[string]scriptedFault
 
 	srv *http.Server
 	URL string
 
 	heads, gets, puts atomic.Int64
+	faultHits         atomic.Int64
 }
 
 type storeObj struct {
@@ -33,7 +37,7 @@ type storeObj struct {
 }
 
 func newObjStore() (*objStore, error) {
-	s := &objStore{objs: map[string]storeObj{}}
+	s := &objStore{objs: map[string]storeObj{}, faults: map[string]scriptedFault{}}
 	ln, err := net.Listen("tcp", "127.0.0.1:0")
 	if err != nil {
 		return nil, err
@@ -47,6 +51,12 @@ func newObjStore() (*objStore, error) {
 func (s *objStore) set(path string, body []byte, delay time.Duration) {
 	s.mu.Lock()
 	s.objs[path] = storeObj{body: body, delay: delay}
+	s.mu.Unlock()
+}
+
+func (s *objStore) setFault(path string, f scriptedFault) {
+	s.mu.Lock()
+	s.faults[path] = f
 	s.mu.Unlock()
 }
 
@@ -68,7 +78,35 @@ func (s *objStore) ServeHTTP(w http.ResponseWriter, r *http.Request) {
 		}
 		s.mu.RLock()
 		o, ok := s.objs[r.URL.Path]
+		sf, faulty := s.faults[r.URL.Path]
 		s.mu.RUnlock()
+		if faulty && r.Method == http.MethodHead {
+			s.faultHits.Add(1)
+			if sf.f.delay > 0 {
+				select {
+				case <-time.After(sf.f.delay):
+				case <-r.Context().Done():
+					return
+				}
+			}
+			switch {
+			case sf.f.close:
+				if hj, can := w.(http.Hijacker); can {
+					if conn, _, err := hj.Hijack(); err == nil {
+						_ = conn.Close()
+						return
+					}
+				}
+				panic(http.ErrAbortHandler) // closes the connection as well
+			case !sf.f.truthful:
+				if sf.withLength {
+					w.Header().Set("Content-Type", "text/html")
+					w.Header().Set("Content-Length", strconv.Itoa(150+sf.f.status%50))
+				}
+				w.WriteHeader(sf.f.status)
+				return
+			}
+		}
 		if ok && o.delay > 0 {
 			select {
 			case <-time.After(o.delay):
